@@ -90,6 +90,11 @@ buffer: `d` is cut to the window's length; everything else keeps its value. -/
 def writeAt {α : Type} (s : List α) (lo hi : Int) (d : List α) : List α :=
   s.take lo.toNat ++ d.take (hi.toNat - lo.toNat) ++ s.drop (lo.toNat + (d.take (hi.toNat - lo.toNat)).length)
 
+/-- `binary.BigEndian.PutUint64(b, v)` for `len b ≥ 8`: the first eight bytes become `v`, big-endian
+(the real function panics on a shorter slice; the translator's callers pass `make([]byte, 8)`). -/
+def putU64BE (b : List UInt8) (v : BitVec 64) : List UInt8 :=
+  (List.range 8).map (fun i => UInt8.ofNat ((v.toNat >>> (8 * (7 - i))) % 256)) ++ b.drop 8
+
 /-- `s[i]` on a slice of abstract objects. -/
 def idxG {α : Type} [Inhabited α] (s : List α) (i : Int) : α := s.getD i.toNat default
 
